@@ -23,7 +23,7 @@ import z3
 
 from pyvc import mk, sym
 from pyvc.api import Contract, NativeCheck, outcome
-from pyvc.interp import LoopSpec, ObjVal, PyRaise, SymDict
+from pyvc.interp import LoopSpec, ObjVal, PyRaise, SymDict, Unsupported
 from pyvc.sym import SBool, SNum, SStr, SOpt, mk_bool, force, cur
 from . import env, nodemodel as nm
 
@@ -1805,6 +1805,209 @@ def cli_contracts(tier):
     ]
 
 
+# -- cli: usage errors (C04) --------------------------------------------------
+#
+# "Usage errors are reported as a one-line diagnostic" for a missing input,
+# a missing or non-executable command - main or cross-check.  The files of
+# the run are ghost inputs: for each path two booleans, "is a regular file"
+# and "has the x bit".  The real check_options() and the real
+# tmpfiles.copy_binaries() are interpreted over them; what they guard is the
+# environment's own behaviour: shutil.copy of something that is not a regular
+# file raises OSError, running a command that is not an executable regular
+# file raises OSError (Popen), reading a missing input raises OSError.
+
+
+def make_run_usage(with_cc):
+
+    def run(eng, p):
+        ns = eng._ns
+        ns.strategy = 'ddmin'
+        ns.cmd = ['/bin/cmd', '--flag']
+        ns.cmd_cc = ['/bin/cc'] if with_cc else None
+        ns.timeout = None
+        ns.timeout_cc = None
+        ns.parser_test = False
+        fs = {}
+
+        def fact(path, what):
+            path = force(path)
+            if not isinstance(path, str):
+                raise Unsupported(f'file system model: path {path!r}')
+            k = (path, what)
+            if k not in fs:
+                fs[k] = p.fresh_bool(f'{what}[{path}]')
+            return fs[k]
+
+        def isfile(f):
+            return SBool(fact(f, 'isfile'))
+
+        def access(f, mode):
+            if force(mode) != 1:
+                raise Unsupported('os.access: only X_OK is modelled')
+            # the x bit of something that is not there is not set
+            return SBool(z3.And(fact(f, 'isfile'), fact(f, 'xbit')))
+
+        import os as real_os
+        osm = env.ModelNS()
+        osm.path = types.SimpleNamespace(
+            isfile=isfile, getsize=lambda f: 10, join=real_os.path.join,
+            splitext=real_os.path.splitext, dirname=real_os.path.dirname,
+            abspath=real_os.path.abspath)
+        osm.access = access
+        osm.X_OK = 1
+        eng.native_modules['os'] = osm
+        N = 'cli.usage[cc]' if with_cc else 'cli.usage[no cc]'
+        events = []
+
+        def copy(src, dst, **k):
+            src, dst = force(src), force(dst)
+            if not p.decide(fact(src, 'isfile')):
+                events.append(('copy-of-a-non-file', src))
+                raise PyRaise(FileNotFoundError(2, 'No such file', src))
+            # shutil.copy copies the permission bits
+            fs[(dst, 'isfile')] = z3.BoolVal(True)
+            fs[(dst, 'xbit')] = fact(src, 'xbit')
+            return dst
+
+        shm = env.ModelNS()
+        shm.copy = copy
+        eng.native_modules['shutil'] = shm
+
+        def open_(e, name, mode='r', *a, **k):
+            if not p.decide(fact(name, 'isfile')):
+                events.append(('open-of-a-non-file', force(name)))
+                raise PyRaise(FileNotFoundError(2, 'No such file',
+                                                force(name)))
+            return FileModel(name, mode)
+
+        eng.native_handlers[open] = open_
+        # the modules bind os / shutil when loaded: models first
+        cli = eng.load_module('ddsmt.cli')
+        tmpf = eng.load_module('ddsmt.tmpfiles')
+        tmpf.g['__BINARY'] = '<tmp>/binary'
+        tmpf.g['__BINARY_CC'] = '<tmp>/binary_cc'
+        # (already loaded by the set-up: rebind the names they imported)
+        for m in (cli, tmpf):
+            m.g['os'] = osm
+        tmpf.g['shutil'] = shm
+
+        def run_cmd(cmd):
+            c0 = force(cmd[0])
+            if not p.decide(z3.And(fact(c0, 'isfile'), fact(c0, 'xbit'))):
+                events.append(('run-of-a-non-executable', c0))
+                raise PyRaise(PermissionError(13, 'Permission denied', c0))
+
+        def golden(e):
+            run_cmd(ns.cmd)
+            if eng.truth(ns.cmd_cc):
+                run_cmd(ns.cmd_cc)
+            events.append('golden')
+
+        parsed = fresh_exprs(p, 'parsed')
+        eng.overrides['ddsmt.nodeio.parse_smtlib'] = \
+            lambda e, text: ParsedIter(parsed)
+
+        def b_list(e, it=()):
+            if isinstance(it, ParsedIter):
+                return it.exprs
+            return list(e.iterate(it))
+
+        eng.native_handlers[list] = b_list
+        eng.overrides['ddsmt.mutators.auto_detect_theories'] = \
+            lambda e, x: None
+        eng.overrides['ddsmt.tmpfiles.init'] = lambda e: None
+        eng.overrides['ddsmt.checker.do_golden_runs'] = golden
+        eng.overrides['ddsmt.cli.setup_logging'] = lambda e: None
+        eng.overrides['ddsmt.strategy_ddmin.reduce'] = \
+            lambda e, exprs: (events.append('reduce'), (exprs, 0))[1]
+        # the facts the user controls, before the run touches anything
+        infile_ok = fact('<infile>', 'isfile')
+        cmd_ok = z3.And(fact('/bin/cmd', 'isfile'), fact('/bin/cmd', 'xbit'))
+        cc_ok = z3.And(fact('/bin/cc', 'isfile'), fact('/bin/cc', 'xbit')) \
+            if with_cc else z3.BoolVal(True)
+        usage_ok = z3.And(infile_ok, cmd_ok, cc_ok)
+        out = outcome(eng, cli.g['ddsmt_main'], [])
+        diag = out.kind == 'raise' and isinstance(out.value, ObjVal) and \
+            out.value.cls.qualname == 'ddsmt.cli.DDSMTException'
+        p.oblige(f'C04/{N}/only-a-usage-diagnostic-escapes',
+                 out.kind == 'return' or diag,
+                 info={'outcome': repr(out), 'events': repr(events),
+                       'signature': 'an exception other than the usage '
+                       f'diagnostic escapes ddsmt_main: {out!r}'})
+        if diag:
+            p.oblige(f'C04/{N}/diagnostic-only-for-a-usage-error',
+                     z3.Not(usage_ok))
+            p.oblige(f'C04/{N}/nothing-run-after-a-usage-error',
+                     not events, info=repr(events))
+        if out.kind == 'return':
+            p.oblige(f'C04/{N}/usage-error-is-reported', usage_ok)
+            p.oblige(f'C04/{N}/minimisation-ran', 'reduce' in events and
+                     'golden' in events)
+
+    return run
+
+
+def replay_usage(name, model, detail):
+    """The real executable on a real directory laid out as the counter-model
+    says; a traceback or a diagnostic of more than one line is a failure."""
+    def b(k):
+        return bool(model.get(k, True))
+
+    lay = {}
+    for path in ('<infile>', '/bin/cmd', '/bin/cc'):
+        lay[path] = [b(f'isfile[{path}]'), b(f'xbit[{path}]')]
+    A = {'layout': lay, 'with_cc': '[cc]' in name}
+    script = f'''
+import os, subprocess, sys, tempfile
+A = {A!r}
+d = tempfile.mkdtemp(prefix='c04usage-')
+names = {{'<infile>': 'in.smt2', '/bin/cmd': 'cmd.sh', '/bin/cc': 'cc.sh'}}
+for k, (isfile, xbit) in A['layout'].items():
+    f = os.path.join(d, names[k])
+    if not isfile:
+        continue
+    with open(f, 'w') as h:
+        h.write('(assert true)\\n' if k == '<infile>'
+                else '#!/bin/sh\\necho sat\\n')
+    os.chmod(f, 0o755 if xbit else 0o644)
+argv = [sys.executable, os.path.join(os.environ['PYTHONPATH'].split(os.pathsep)[0], 'bin/ddsmt'),
+        '-j1', os.path.join(d, 'in.smt2'), os.path.join(d, 'out.smt2'),
+        os.path.join(d, 'cmd.sh')]
+if A['with_cc']:
+    argv[3:3] = ['-c', os.path.join(d, 'cc.sh')]
+r = subprocess.run(argv, capture_output=True, text=True, timeout=300)
+import shutil; shutil.rmtree(d, ignore_errors=True)
+tb = 'Traceback (most recent call last)' in r.stderr + r.stdout
+usage_ok = all(i and (x or k == '<infile>')
+               for k, (i, x) in A['layout'].items()
+               if A['with_cc'] or k != '/bin/cc')
+print('layout', A, 'exit', r.returncode, 'traceback', tb)
+print(r.stderr[-800:])
+bad = tb or (r.returncode == 0) != usage_ok
+sys.exit(1 if bad else 0)
+'''
+    return {'script': script, 'input': A}
+
+
+def usage_contracts(tier):
+    A = ['os.path.isfile / os.access(X_OK) / shutil.copy / open / running a '
+         'command modelled over two ghost booleans per path (regular file, '
+         'x bit): copy and open of a non-file raise OSError, running a '
+         'non-executable raises OSError, copy keeps the x bit',
+         'parser, theory detection, tmpfiles.init, do_golden_runs and '
+         'reduce are stubs here (their own contracts are elsewhere); '
+         'main() prints the diagnostic exception as one line and returns 1 '
+         '(read, 6 lines, not interpreted)']
+    return [
+        Contract(f'cli.usage[{t}]', ['ddsmt.cli.ddsmt_main',
+                                     'ddsmt.cli.check_options',
+                                     'ddsmt.tmpfiles.copy_binaries'],
+                 make_run_usage(t == 'cc'), setup=setup_cli, assumptions=A,
+                 replay=replay_usage)
+        for t in ('no cc', 'cc')
+    ]
+
+
 def ddmin_top_contracts(tier):
     A = ['_check_seq/_check_par/_apply_mutator used through their contracts '
          '(proved by ddmin._check_seq, ddmin._check_par, '
@@ -1821,4 +2024,5 @@ def ddmin_top_contracts(tier):
 def all_contracts(tier):
     return (hier_contracts(tier) + worker_contracts(tier) +
             ddmin_contracts(tier) + ddmin_worker_contracts(tier) +
-            ddmin_top_contracts(tier) + cli_contracts(tier))
+            ddmin_top_contracts(tier) + cli_contracts(tier) +
+            usage_contracts(tier))
